@@ -1,6 +1,7 @@
 import LitexProofs.Packet.Header
 import LitexProofs.Packet.Fifo
 import LitexProofs.Packet.Arbiter
+import LitexProofs.Packet.RoundTrip
 /-
   C16 — Packet framing: headers round-trip and packets are never interleaved or torn.
 
@@ -188,5 +189,74 @@ example :
     dispLog 2 false (dispatcher 2 false).init
       [⟨b 1 false, 1, [true, true]⟩, ⟨b 2 true, 0, [false, true]⟩, ⟨b 3 true, 5, [false, false]⟩]
       = [(some 1, 1, b 1 false), (some 1, 0, b 2 true), (none, 5, b 3 true)] := by decide
+
+/-! ## 4. Packetizer / Depacketizer
+
+  `c : PkCfg` = (`B` bytes per beat, `H` header bytes).  `AlignedCfg c`: `B > 0`, `H > 0`, `H % B = 0`
+  (the header is a whole number `W = H / B ≥ 1` of beats) — for **every** such data width and header length.
+
+  `Compliant e s none ins`: the producer obeys the stream contract (a beat offered and not accepted is offered
+  again unchanged); nothing is assumed about `source.ready`, about the lines while `valid = 0`, or about
+  idle cycles between beats or packets.
+
+  Full statements (all `c` with `B, H > 0`) are false on the current tree — findings
+  C16-header-shorter-than-beat (`H < B`), C16-packetizer-unaligned-single-beat,
+  C16-packetizer-unaligned-bubble, C16-depacketizer-residue-end — see the negative witnesses below.  The
+  unaligned machines are modelled and compared exhaustively with the code (correspondence + monitors), their
+  residue theorem is `_open` (comment at the end). -/
+
+/-- **packetizer_bytes** (`_partial`: aligned header).  For every contract-abiding input sequence the beats
+    delivered so far are exactly `frame accepted` — per packet the `W` header words of the header presented with
+    the packet's first beat (`hdrWord k` = bits `[k·dw, (k+1)·dw)` of the header signal, i.e. header bytes
+    `k·B … k·B+B-1`, lane 0 first), then the payload beats unchanged with `last` on the final one — followed, if
+    a first beat is on offer and not yet accepted, by a prefix of that packet's header words. -/
+theorem packetizer_bytes_partial (c : PkCfg) (hc : AlignedCfg c) (ins : List (In HBeat))
+    (hcomp : Compliant (packetizer c) (packetizer c).init none ins) :
+    let e := packetizer c
+    let a := e.accepted e.init ins
+    let d := e.delivered e.init ins
+    d = frame c a ∨ (endSt true a = true ∧ ∃ t k, pendRun e e.init none ins = some t ∧ k ≤ c.W ∧
+      d = frame c a ++ (hdrWords c (hdrOf c t)).take k) := by
+  intro e a d
+  have h := rel_run_compliant e (pkRel c) (packetizer_step c hc) ins e.init none [] []
+    (by simp [pkRel, e, packetizer, PkState.reset, endSt, frame, frameAux]) hcomp
+  simp only [List.nil_append] at h
+  exact pkRel_shape c _ _ _ _ h
+
+/-- **depacketizer_bytes** (`_partial`: aligned header).  For *every* input sequence (no contract needed) the
+    delivered beats are `deframe accepted`: the first `W` beats of a packet are collected as the header
+    (beat `k` at bits `[k·dw, (k+1)·dw)`), every following beat up to `last` is delivered unchanged together
+    with that header — the same header on every beat of the packet (stable from first payload beat to last). -/
+theorem depacketizer_bytes_partial (c : PkCfg) (hc : AlignedCfg c) (ins : List (In Nat)) :
+    let e := depacketizer c
+    e.delivered e.init ins = deframe c (e.accepted e.init ins) := by
+  intro e
+  have h := rel_run_init e (dpRel c)
+    (by simp [dpRel, e, depacketizer, PkState.reset, deframe, deframeAux, dfSt, Nat.two_pow_pos])
+    (depacketizer_step c hc) ins
+  exact h.1
+
+/-- **pkt_depkt_roundtrip** (`_partial`: aligned header).  Packetizer → Depacketizer delivers, for every
+    contract-abiding input sequence and at every moment, exactly the accepted beats (payload and `last`
+    unchanged, payload length ≥ 1 beat, back-to-back packets included), each carrying the header signal
+    presented with the first beat of its packet.  With `header_roundtrip` this gives back the header fields. -/
+theorem pkt_depkt_roundtrip_partial (c : PkCfg) (hc : AlignedCfg c) (ins : List (In HBeat))
+    (hcomp : Compliant (pkdpk c) (pkdpk c).init none ins) :
+    (pkdpk c).delivered (pkdpk c).init ins = annot c ((pkdpk c).accepted (pkdpk c).init ins) := by
+  have h := rel_run_compliant (pkdpk c) (rtRel c) (pkdpk_step c hc) ins (pkdpk c).init none [] []
+    ⟨[], by simp [pkRel, pkdpk, Elem.comp, packetizer, PkState.reset, endSt, frame, frameAux],
+         by simp [dpRel, pkdpk, Elem.comp, depacketizer, PkState.reset, deframe, deframeAux, dfSt, Nat.two_pow_pos]⟩
+    hcomp
+  simp only [List.nil_append] at h
+  obtain ⟨mid, h1, h2⟩ := h
+  rw [h2.1]
+  rcases pkRel_shape c _ _ _ _ h1 with hm | ⟨hend, t, k, _, hk, hm⟩
+  · rw [hm]; exact deframe_frame c hc _
+  · rw [hm]
+    exact deframe_frame_ahead c hc _ _ hend (by simp [hdrWords])
+
+/-- The framing functions are inverse to each other on whole packets (pure statement). -/
+theorem deframe_frame_eq (c : PkCfg) (hc : AlignedCfg c) (a : List (Tok HBeat)) :
+    deframe c (frame c a) = annot c a := deframe_frame c hc a
 
 end Litex.C16
